@@ -135,14 +135,14 @@ fn read_unlock_case(other_reader: bool) {
 }
 
 vharness! {
-    /// @prop C07,C04 @tier thorough @mode fast @cost 3 @timeout 3600 @funcs RwLock::release_read_lock,Synchronize::sync_store @bounds 3 threads; read-held by threads 0 and 1, thread 1 unlocks; thread 2 symbolic (unrelated / blocked elsewhere / pending read / pending write); all clock values
+    /// @prop C07,C04 @tier experimental @mode fast @cost 3 @timeout 3600 @funcs RwLock::release_read_lock,Synchronize::sync_store @bounds 3 threads; read-held by threads 0 and 1, thread 1 unlocks; thread 2 symbolic (unrelated / blocked elsewhere / pending read / pending write); all clock values
     /// read-unlock while another reader remains: the reader leaves the reader set and still publishes its view into the lock (a later writer must see it); nobody is woken.
     #[cfg_attr(kani, kani::unwind(8))]
     fn rwlock_read_unlock_not_last() { read_unlock_case(true) }
 }
 
 vharness! {
-    /// @prop C07,C05 @tier thorough @mode fast @cost 3 @timeout 3600 @funcs RwLock::release_read_lock,RwLock::unlock_threads @bounds 3 threads; read-held by thread 1 only; thread 2 symbolic
+    /// @prop C07,C05 @tier experimental @mode fast @cost 3 @timeout 3600 @funcs RwLock::release_read_lock,RwLock::unlock_threads @bounds 3 threads; read-held by thread 1 only; thread 2 symbolic
     /// read-unlock by the last reader: the lock becomes free, the reader's view is published, every thread queued on the lock is runnable again.
     #[cfg_attr(kani, kani::unwind(8))]
     fn rwlock_read_unlock_last() { read_unlock_case(false) }
